@@ -22,65 +22,65 @@ macro_rules | `(tactic| fr_spec $F) => `(tactic| fr_w1 (FrameStep.setName $F _ _
 macro_rules | `(tactic| fr_spec $F) => `(tactic| fr_w1 (FrameStep.setReward $F _ _ _ (by simp [acctFootprint])))
 macro_rules | `(tactic| fr_spec $F) => `(tactic| fr_w1 (FrameStep.setBalance $F _ _ _ (by simp [acctFootprint])))
 
-theorem frame_esdtTransfer (env : Env) (c : Call) : Framed (tokenFootprint c) (esdtTransfer env c) := by
-  intro ctx A0 h0; unfold esdtTransfer; fr (tokenFootprint c)
-theorem frame_esdtLocalMint (env : Env) (c : Call) : Framed (tokenFootprint c) (esdtLocalMint env c) := by
-  intro ctx A0 h0; unfold esdtLocalMint; fr (tokenFootprint c)
-theorem frame_esdtLocalBurn (env : Env) (c : Call) : Framed (tokenFootprint c) (esdtLocalBurn env c) := by
-  intro ctx A0 h0; unfold esdtLocalBurn; fr (tokenFootprint c)
-theorem frame_esdtBurn (env : Env) (c : Call) : Framed (tokenFootprint c) (esdtBurn env c) := by
-  intro ctx A0 h0; unfold esdtBurn; fr (tokenFootprint c)
-theorem frame_esdtNFTCreate (env : Env) (c : Call) : Framed (tokenFootprint c) (esdtNFTCreate env c) := by
-  intro ctx A0 h0; unfold esdtNFTCreate; fr (tokenFootprint c)
-theorem frame_esdtNFTAddQuantity (env : Env) (c : Call) : Framed (tokenFootprint c) (esdtNFTAddQuantity env c) := by
-  intro ctx A0 h0; unfold esdtNFTAddQuantity; fr (tokenFootprint c)
-theorem frame_esdtNFTBurn (env : Env) (c : Call) : Framed (tokenFootprint c) (esdtNFTBurn env c) := by
-  intro ctx A0 h0; unfold esdtNFTBurn; fr (tokenFootprint c)
-theorem frame_esdtNFTAddURI (env : Env) (c : Call) : Framed (tokenFootprint c) (esdtNFTAddURI env c) := by
-  intro ctx A0 h0; unfold esdtNFTAddURI; fr (tokenFootprint c)
+theorem frame_esdtTransfer (env : Env) (c : Call) : Framed (tokenFootprint false false c) (esdtTransfer env c) := by
+  intro ctx A0 h0; unfold esdtTransfer; fr (tokenFootprint false false c)
+theorem frame_esdtLocalMint (env : Env) (c : Call) : Framed (tokenFootprint false false c) (esdtLocalMint env c) := by
+  intro ctx A0 h0; unfold esdtLocalMint; fr (tokenFootprint false false c)
+theorem frame_esdtLocalBurn (env : Env) (c : Call) : Framed (tokenFootprint false false c) (esdtLocalBurn env c) := by
+  intro ctx A0 h0; unfold esdtLocalBurn; fr (tokenFootprint false false c)
+theorem frame_esdtBurn (env : Env) (c : Call) : Framed (tokenFootprint false false c) (esdtBurn env c) := by
+  intro ctx A0 h0; unfold esdtBurn; fr (tokenFootprint false false c)
+theorem frame_esdtNFTCreate (env : Env) (c : Call) : Framed (tokenFootprint false true c) (esdtNFTCreate env c) := by
+  intro ctx A0 h0; unfold esdtNFTCreate; fr (tokenFootprint false true c)
+theorem frame_esdtNFTAddQuantity (env : Env) (c : Call) : Framed (tokenFootprint false false c) (esdtNFTAddQuantity env c) := by
+  intro ctx A0 h0; unfold esdtNFTAddQuantity; fr (tokenFootprint false false c)
+theorem frame_esdtNFTBurn (env : Env) (c : Call) : Framed (tokenFootprint false false c) (esdtNFTBurn env c) := by
+  intro ctx A0 h0; unfold esdtNFTBurn; fr (tokenFootprint false false c)
+theorem frame_esdtNFTAddURI (env : Env) (c : Call) : Framed (tokenFootprint false false c) (esdtNFTAddURI env c) := by
+  intro ctx A0 h0; unfold esdtNFTAddURI; fr (tokenFootprint false false c)
 theorem frame_esdtNFTUpdateAttributes (env : Env) (c : Call) :
-    Framed (tokenFootprint c) (esdtNFTUpdateAttributes env c) := by
-  intro ctx A0 h0; unfold esdtNFTUpdateAttributes; fr (tokenFootprint c)
+    Framed (tokenFootprint false false c) (esdtNFTUpdateAttributes env c) := by
+  intro ctx A0 h0; unfold esdtNFTUpdateAttributes; fr (tokenFootprint false false c)
 theorem frame_esdtFreezeWipe (k : FreezeKind) (env : Env) (c : Call) :
-    Framed (tokenFootprint c) (esdtFreezeWipe k env c) := by
-  intro ctx A0 h0; unfold esdtFreezeWipe; fr (tokenFootprint c)
-theorem frame_esdtPause (p : Bool) (env : Env) (c : Call) : Framed (tokenFootprint c) (esdtPause p env c) := by
-  intro ctx A0 h0; unfold esdtPause; fr (tokenFootprint c)
-theorem frame_esdtRoles (s : Bool) (env : Env) (c : Call) : Framed (tokenFootprint c) (esdtRoles s env c) := by
-  intro ctx A0 h0; unfold esdtRoles; fr (tokenFootprint c)
+    Framed (tokenFootprint false false c) (esdtFreezeWipe k env c) := by
+  intro ctx A0 h0; unfold esdtFreezeWipe; fr (tokenFootprint false false c)
+theorem frame_esdtPause (p : Bool) (env : Env) (c : Call) : Framed (tokenFootprint false false c) (esdtPause p env c) := by
+  intro ctx A0 h0; unfold esdtPause; fr (tokenFootprint false false c)
+theorem frame_esdtRoles (s : Bool) (env : Env) (c : Call) : Framed (tokenFootprint true false c) (esdtRoles s env c) := by
+  intro ctx A0 h0; unfold esdtRoles; fr (tokenFootprint true false c)
 theorem frame_esdtNFTCreateRoleTransfer (env : Env) (c : Call) :
-    Framed (tokenFootprint c) (esdtNFTCreateRoleTransfer env c) := by
-  intro ctx A0 h0; unfold esdtNFTCreateRoleTransfer; fr (tokenFootprint c)
+    Framed (tokenFootprint true true c) (esdtNFTCreateRoleTransfer env c) := by
+  intro ctx A0 h0; unfold esdtNFTCreateRoleTransfer; fr (tokenFootprint true true c)
 theorem frame_esdtNFTTransferSender (env : Env) (c : Call) :
-    Framed (tokenFootprint c) (esdtNFTTransferSender env c) := by
-  intro ctx A0 h0; unfold esdtNFTTransferSender; fr (tokenFootprint c)
-theorem frame_esdtNFTTransfer (env : Env) (c : Call) : Framed (tokenFootprint c) (esdtNFTTransfer env c) := by
-  intro ctx A0 h0; unfold esdtNFTTransfer; fr (tokenFootprint c)
+    Framed (tokenFootprint false false c) (esdtNFTTransferSender env c) := by
+  intro ctx A0 h0; unfold esdtNFTTransferSender; fr (tokenFootprint false false c)
+theorem frame_esdtNFTTransfer (env : Env) (c : Call) : Framed (tokenFootprint false false c) (esdtNFTTransfer env c) := by
+  intro ctx A0 h0; unfold esdtNFTTransfer; fr (tokenFootprint false false c)
   exact frame_esdtNFTTransferSender env c _ A0 (by assumption)
 
 theorem frame_transferOne (env : Env) (c : Call) (l : Bool) (d t : Bytes) (n q : Nat) (v : Bool)
-    (hd : d ∈ c.args) (ht : t ∈ c.args) : Framed (tokenFootprint c) (transferOne env c l d t n q v) := by
-  intro ctx A0 h0; unfold transferOne; fr (tokenFootprint c)
+    (hd : d ∈ c.args) (ht : t ∈ c.args) : Framed (tokenFootprint false false c) (transferOne env c l d t n q v) := by
+  intro ctx A0 h0; unfold transferOne; fr (tokenFootprint false false c)
 macro_rules | `(tactic| fr_spec $F) => `(tactic|
   fr_w1 ((frame_transferOne _ _ _ _ _ _ _ _ (by fp_aux) (by fp_aux)).step _))
 
 theorem frame_multiSenderLoop (env : Env) (c : Call) (l : Bool) (d : Bytes) (v : Bool) (hd : d ∈ c.args) :
-    ∀ n idx, Framed (tokenFootprint c) (multiSenderLoop env c l d v n idx) := by
+    ∀ n idx, Framed (tokenFootprint false false c) (multiSenderLoop env c l d v n idx) := by
   intro n
   induction n with
-  | zero => intro idx ctx A0 h0; unfold multiSenderLoop; fr (tokenFootprint c)
+  | zero => intro idx ctx A0 h0; unfold multiSenderLoop; fr (tokenFootprint false false c)
   | succ n ih =>
-    intro idx ctx A0 h0; unfold multiSenderLoop; fr (tokenFootprint c)
-    all_goals (refine Post.mono (ih _ _ A0 (by assumption)) ?_; intro _ _ hfr; fr (tokenFootprint c))
+    intro idx ctx A0 h0; unfold multiSenderLoop; fr (tokenFootprint false false c)
+    all_goals (refine Post.mono (ih _ _ A0 (by assumption)) ?_; intro _ _ hfr; fr (tokenFootprint false false c))
 
 theorem frame_multiDestLoop (env : Env) (c : Call) (m : Nat) :
-    ∀ n idx, Framed (tokenFootprint c) (multiDestLoop env c m n idx) := by
+    ∀ n idx, Framed (tokenFootprint false false c) (multiDestLoop env c m n idx) := by
   intro n
   induction n with
-  | zero => intro idx ctx A0 h0; unfold multiDestLoop; fr (tokenFootprint c)
+  | zero => intro idx ctx A0 h0; unfold multiDestLoop; fr (tokenFootprint false false c)
   | succ n ih =>
-    intro idx ctx A0 h0; unfold multiDestLoop; fr (tokenFootprint c)
-    all_goals (refine Post.mono (ih _ _ A0 (by assumption)) ?_; intro _ _ hfr; fr (tokenFootprint c))
+    intro idx ctx A0 h0; unfold multiDestLoop; fr (tokenFootprint false false c)
+    all_goals (refine Post.mono (ih _ _ A0 (by assumption)) ?_; intro _ _ hfr; fr (tokenFootprint false false c))
 
 theorem ro_multiPayloadLoop (env : Env) : ∀ toks g, RO (multiPayloadLoop env toks g) := by
   intro toks
@@ -91,20 +91,20 @@ theorem ro_multiPayloadLoop (env : Env) : ∀ toks g, RO (multiPayloadLoop env t
     unfold multiPayloadLoop; ro <;> exact ih _
 
 theorem frame_multiTransferSender (env : Env) (c : Call) :
-    Framed (tokenFootprint c) (multiTransferSender env c) := by
-  intro ctx A0 h0; unfold multiTransferSender; fr (tokenFootprint c)
+    Framed (tokenFootprint false false c) (multiTransferSender env c) := by
+  intro ctx A0 h0; unfold multiTransferSender; fr (tokenFootprint false false c)
   all_goals first
     | (refine Post.mono ((frame_multiSenderLoop env c _ _ _ (List.mem_of_getElem? ‹_›) _ _).step _) ?_
-       intro _ _ hs; have hfr := hs _ (by assumption); clear hs; fr (tokenFootprint c)
+       intro _ _ hs; have hfr := hs _ (by assumption); clear hs; fr (tokenFootprint false false c)
        all_goals (refine Post.mono (ro_multiPayloadLoop env _ _ _) ?_
-                  intro _ _ he; have hfr2 := Frame.of_accts_eq he (by assumption); clear he; fr (tokenFootprint c)))
+                  intro _ _ he; have hfr2 := Frame.of_accts_eq he (by assumption); clear he; fr (tokenFootprint false false c)))
     | skip
 
-theorem frame_multiTransfer (env : Env) (c : Call) : Framed (tokenFootprint c) (multiTransfer env c) := by
-  intro ctx A0 h0; unfold multiTransfer; fr (tokenFootprint c)
+theorem frame_multiTransfer (env : Env) (c : Call) : Framed (tokenFootprint false false c) (multiTransfer env c) := by
+  intro ctx A0 h0; unfold multiTransfer; fr (tokenFootprint false false c)
   · exact frame_multiTransferSender env c _ A0 (by assumption)
   all_goals (refine Post.mono ((frame_multiDestLoop env c _ _ _).step _) ?_
-             intro _ _ hs; have hfr := hs _ (by assumption); clear hs; fr (tokenFootprint c))
+             intro _ _ hs; have hfr := hs _ (by assumption); clear hs; fr (tokenFootprint false false c))
 
 /-! ### account-level functions and SaveKeyValue -/
 
